@@ -74,6 +74,15 @@ struct to_std<etl::reference_wrapper<T>> {
     using type = std::reference_wrapper<T>;
 };
 
+// does the (mapped) etl type equal the std tuple with every element decayed?  (classifies the tuple_cat result defect)
+template <typename T>
+struct decay_elems {
+    using type = T;
+};
+template <typename... Ts>
+struct decay_elems<std::tuple<Ts...>> {
+    using type = std::tuple<std::decay_t<Ts>...>;
+};
 // one compile-time boolean reported at run time (C15 style): decltype(etl expr) vs decltype(std expr)
 template <typename EtlT, typename StdT>
 inline bool same_type(char const* what = "decltype")
@@ -81,6 +90,7 @@ inline bool same_type(char const* what = "decltype")
     constexpr bool ok = std::is_same_v<to_std_t<EtlT>, StdT>;
     if (!ok) {
         std::string sym = std::string(what) + ":" + type_name<to_std_t<EtlT>>() + "-for-" + type_name<StdT>();
+        if constexpr (std::is_same_v<to_std_t<EtlT>, typename decay_elems<StdT>::type>) { sym = std::string(what) + ":tuple-elements-decayed"; }
         if (sym.size() > 90) { sym.resize(90); }
         vf::diverge(sym.c_str(), type_name<EtlT>(), type_name<StdT>());
     }
@@ -350,8 +360,9 @@ struct Fn {
     {
         int st = state++;
         note_call(id, st, self, this, std::forward<X>(x)...);
-        int h = id * 1000 + st * 100 + self * 10;
-        ((h = h * 7 + val(x)), ...);
+        unsigned uh = static_cast<unsigned>(id) * 1000u + static_cast<unsigned>(st) * 100u + static_cast<unsigned>(self) * 10u;
+        ((uh = uh * 7u + static_cast<unsigned>(val(x))), ...);
+        int h = static_cast<int>(uh & 0x3fffffffu);
         if constexpr (RK == 0) {
             return h;
         } else if constexpr (RK == 1) {
@@ -396,8 +407,7 @@ struct Fn {
 
 // compare one wrapper call with the direct call.  `direct` and `via` are thunks returning c20::Res.
 // The caller has already written the breadcrumb for the wrapper call.
-template <typename Direct, typename Via>
-inline bool compare_call(Direct&& direct, Via&& via, bool compare_ret_addr = true)
+inline bool compare_call(std::function<Res()> const& direct, std::function<Res()> const& via, bool compare_ret_addr = true)
 {
     CallLog& L = calllog();
     L.clear();
